@@ -4,4 +4,5 @@ import PbProps.C06
 import PbProps.C10
 import PbProps.C12
 import PbProps.C16
+import PbProps.C17
 import PbProps.C18
